@@ -22,6 +22,9 @@ EMU_CFG = {
     "E-none": '--cfg memchr_emu --cfg memchr_emu_arch="none"',
 }
 LEVELS = {"N-auto": "auto", "N-sse2": "sse2", "N-fb": "fb"}
+# the same harness without debug assertions / overflow checks (what a release build of a user really runs): C05
+LEVELS_PLAIN = {"N-plain-auto": "auto", "N-plain-sse2": "sse2", "N-plain-fb": "fb"}
+EMU_PLAIN = {"E-neon-plain": "E-neon", "E-wasm-plain": "E-wasm", "E-none-plain": "E-none"}
 
 MIRI_TARGETS = {
     "M-x86": ("x86_64-unknown-linux-gnu", ""),
@@ -124,7 +127,8 @@ def ensure(configs, run_dir, repo, log):
     default_repo = os.path.abspath(repo) == "/repo"
     with Lock(repo):
         need_native = [c for c in configs if c in LEVELS]
-        need_emu = [c for c in configs if c in EMU_CFG]
+        need_native_plain = [c for c in configs if c in LEVELS_PLAIN]
+        need_emu = [c for c in configs if c in EMU_CFG or c in EMU_PLAIN]
         need_x = [c for c in configs if c in X_CFG]
         need_miri = [c for c in configs if c in MIRI_TARGETS]
         scratch = scratch_root(repo)
@@ -145,6 +149,16 @@ def ensure(configs, run_dir, repo, log):
                     b = copy_bins(tdir, "release", run_dir, "native")
                     for c in need_native:
                         bins[c] = dict(b, level=LEVELS[c])
+            if need_native_plain:
+                tdir = os.path.join(HARNESS, "target" + tdir_suffix) if default_repo else os.path.join(scratch, "target")
+                rc, out = sh(["cargo", "build", "--profile", "plain"], env_with(RUSTFLAGS=BASE_FLAGS, CARGO_TARGET_DIR=tdir), ws, log)
+                if rc != 0:
+                    for c in need_native_plain:
+                        notes[c] = out
+                else:
+                    b = copy_bins(tdir, "plain", run_dir, "native-plain")
+                    for c in need_native_plain:
+                        bins[c] = dict(b, level=LEVELS_PLAIN[c])
             for c in need_x:
                 feats, flags, profile = X_CFG[c]
                 tdir = os.path.join(HARNESS, "target-x") if default_repo else os.path.join(scratch, "target-x")
@@ -165,12 +179,14 @@ def ensure(configs, run_dir, repo, log):
                     stage_workspace(ews, emu_crate)
                     tdir = os.path.join(HARNESS, "target-emu") if default_repo else os.path.join(scratch, "target-emu")
                     for c in need_emu:
-                        rc, out = sh(["cargo", "build", "--release"],
-                                     env_with(RUSTFLAGS=BASE_FLAGS + " " + EMU_CFG[c], CARGO_TARGET_DIR=tdir), ews, log)
+                        profile = "plain" if c in EMU_PLAIN else "release"
+                        flags = EMU_CFG[EMU_PLAIN.get(c, c)]
+                        rc, out = sh(["cargo", "build", "--profile", profile],
+                                     env_with(RUSTFLAGS=BASE_FLAGS + " " + flags, CARGO_TARGET_DIR=tdir), ews, log)
                         if rc != 0:
                             notes[c] = out
                         else:
-                            bins[c] = dict(copy_bins(tdir, "release", run_dir, c), level="auto")
+                            bins[c] = dict(copy_bins(tdir, profile, run_dir, c), level="auto")
             for c in need_miri:
                 triple, flags = MIRI_TARGETS[c]
                 tdir = os.path.join(HARNESS, "target-miri") if default_repo else os.path.join(scratch, "target-miri")
